@@ -70,6 +70,12 @@ deriving DecidableEq, Repr
 inductive BlocklistMode | exactType | subclassAware | unknownMode
 deriving DecidableEq, Repr
 
+/-- what the serialized buffer's `_hash` computes over the encoded bytes, read from its AST: the
+hexdigest of a `hashlib` hash from the list the translator knows as collision-resistant for this
+purpose (md5, sha1, sha2/sha3, blake2), or anything else -/
+inductive HashKind | cryptographic | otherHash
+deriving DecidableEq, Repr
+
 structure ResolverInfo where
   name : String
   preds : List (String × PredClass)
